@@ -68,6 +68,30 @@ def OutResolver.resolve (r : OutResolver) (alias : Option Nat) (topic : Bytes) :
         let cache1 := if r.cache.length = r.maxAlias then r.cache.dropLast else r.cache
         ({ r with cache := lruPush (lruCapacity cfg) cache1 topic a }, { skipTopic := false, alias := some a })
 
+/-! ### filling a resolver: many publishes to fresh topics (the `alias.out.fill` verb of the facade) -/
+
+/-- the i-th fresh topic: `z` and three base-64 digits counted from '0' -/
+def fillTopic (i : Nat) : Bytes := [122, UInt8.ofNat (48 + i / 4096 % 64), UInt8.ofNat (48 + i / 64 % 64), UInt8.ofNat (48 + i % 64)]
+
+def fillTopics (n : Nat) : List Bytes := (List.range n).map fillTopic
+
+/-- publishes without a user alias to each topic in turn; the resolutions in order -/
+def OutResolver.resolveAll (r : OutResolver) (ts : List Bytes) : OutResolver × List Resolution :=
+  ts.foldl (fun (acc : OutResolver × List Resolution) t => ((acc.1.resolve none t).1, acc.2 ++ [(acc.1.resolve none t).2])) (r, [])
+
+/-- the LRU cache after `n` fresh topics that all found room: most recent first, aliases in order of arrival -/
+def lruFillCache (n : Nat) : List (Bytes × Nat) := ((List.range n).map (fun i => (fillTopic i, i + 1))).reverse
+
+/-- `resolveAll (fillTopics n)`, computed directly where `Proofs/AliasFill.lean` proves the two equal (an empty LRU cache
+    with room for all `n`): filling 65535 aliases step by step costs the list model a few 10^9 steps -/
+def OutResolver.fillFast (r : OutResolver) (n : Nat) : OutResolver × List Resolution :=
+  match r.kind with
+  | .lru cfg =>
+    if r.cache.isEmpty && decide (n ≤ r.maxAlias) && decide (r.maxAlias ≤ lruCapacity cfg) then
+      ({ r with cache := lruFillCache n }, (List.range n).map (fun i => { skipTopic := false, alias := some (i + 1) }))
+    else r.resolveAll (fillTopics n)
+  | _ => r.resolveAll (fillTopics n)
+
 /-! ### inbound -/
 
 structure InResolver where
